@@ -1,17 +1,39 @@
 (* C01 — building a project is total.  Statements only; proofs in Proofs/C01Proofs.v.
    PARTIAL: there is no theorem yet that the whole pipeline neither panics nor runs out of
-   fuel for every input; what is proved: the crash-site inventory regenerated from the source
+   fuel for every input; what is proved: the scanner's control flow is total for every input (no fall-through, no
+   dispatch to a missing state, no pop of an empty return stack), the crash-site inventory regenerated from the source
    equals the reviewed list, the directive layer never dereferences a missing directive,
    INCLUDE-name validation is total, macro expansion of the formerly diverging cycles is
    rejected (Props/C10.v), and the inputs that used to crash no longer do (in the model; the
    implementation is run on the same inputs on every check). *)
-From JS Require Import Base Bytes Scanner Directive Core Entry C01Proofs.
+From JS Require Import Base Bytes Scanner ScanRun Directive Core Entry C01Proofs ScanTotal StackSafe.
+From JS Require ScannerProg.
 From JS Require IncludeName Inventory InventoryExpected.
 
 (* every explicit panic, unchecked type assertion, recover, goroutine, sync.Once, map range,
    package-level variable and os/filepath call of the non-test packages is a reviewed one *)
 Theorem C01_inventory_is_the_reviewed_one : inventory_check = true.
 Proof. exact inventory_check_ok. Qed.
+
+(* the scanner, for EVERY input, every answer of the schema-length oracle and any number of
+   Next() calls: no step function of the regenerated program falls off its end, and the scanner
+   never dispatches - directly, through a call, or through the return-state stack - to a state
+   that does not exist (reflective check of the regenerated program + invariant over runs) *)
+Theorem C01_scanner_control_flow_is_total :
+  forall data tbl fuel,
+    let '(_, e, _) := lex_traj data tbl fuel (init_conf ScannerProg.initial_state) in
+    e <> EndPanic PNoState /\ e <> EndPanic PFallthrough.
+Proof. exact scanner_control_flow_is_total. Qed.
+
+(* ... and it never pops an empty return-state stack (stepStack.Pop on an empty stack panics in
+   Go): a lower bound of the stack depth per state is inferred from the regenerated program,
+   checked by symbolic execution of every path of every step function, and the checker is proved
+   sound against the interpreter *)
+Theorem C01_scanner_never_pops_an_empty_stack :
+  forall data tbl fuel,
+    let '(_, e, _) := lex_traj data tbl fuel (init_conf ScannerProg.initial_state) in
+    e <> EndPanic PStepStackEmpty.
+Proof. exact scanner_never_pops_an_empty_stack. Qed.
 
 Theorem C01_no_nil_current_directive :
   forall st l, core_next st l <> CPanic CPNilCurrentDirective.
@@ -26,6 +48,8 @@ Theorem C01_repaired_crashes_stay_repaired :
 Proof. exact repaired_crashes_stay_repaired. Qed.
 
 Print Assumptions C01_inventory_is_the_reviewed_one.
+Print Assumptions C01_scanner_control_flow_is_total.
+Print Assumptions C01_scanner_never_pops_an_empty_stack.
 Print Assumptions C01_no_nil_current_directive.
 Print Assumptions C01_include_validation_total.
 Print Assumptions C01_repaired_crashes_stay_repaired.
